@@ -1,13 +1,36 @@
 (* Property C09 — a WeakDom stays a well-formed forest under every history.
-   This file holds theorem statements only; every proof is `exact` of a lemma in Proofs/. *)
-From RbxVerif Require Import Base Dom Tree BaseFacts DomFacts.
+   This file holds theorem statements only; every proof is `exact` of a lemma in Proofs/.
 
+   Structure of the argument: `Rep d a` says the concrete instance table of dom.rs's model equals,
+   pointwise, the flattening of a duplicate-free rose forest `a`.  (1) `Rep` implies every clause of
+   the property (C09_rep_wf).  (2) Every operation, called within its documented preconditions
+   (= whenever the rose-tree specification of Model/Tree.v is defined), terminates without panic
+   within the stated fuel and re-establishes `Rep` with the specification's result (C09_*_refines;
+   these are also the C10 theorems).  Hence every DOM reachable by any history is well formed. *)
+From RbxVerif Require Import Base Dom Tree BaseFacts DomFacts TreeFacts Rep RepWF
+  RefDestroy RefMoveWithin RefInsert RefMove.
+
+Theorem C09_rep_wf : forall d a, Rep d a -> WF d.
+Proof. exact rep_wf. Qed.
+Check C09_rep_wf : forall d a, Rep d a -> WF d.
+
+Theorem C09_new_refines : refines_new.
+Proof. exact new_refines. Qed.
+Theorem C09_insert_refines : refines_insert.
+Proof. exact insert_refines. Qed.
+Theorem C09_destroy_refines : refines_destroy.
+Proof. exact destroy_refines. Qed.
+Theorem C09_move_within_refines : refines_move_within.
+Proof. exact move_within_refines. Qed.
+Theorem C09_transfer_refines : refines_move.
+Proof. exact move_refines. Qed.
+
+(* destroyed instances can no longer be looked up *)
 Theorem C09_removed_is_gone : forall d r d' i,
   inner_remove d r = Some (d', i) -> lookup r (d_insts d') = None /\ lookup r (d_insts d) = Some i.
 Proof. exact inner_remove_gone. Qed.
-Check C09_removed_is_gone : forall d r d' i,
-  inner_remove d r = Some (d', i) -> lookup r (d_insts d') = None /\ lookup r (d_insts d) = Some i.
 
+(* the guard of transfer_within (fix: commit 4ceb9590): a move under the moved instance's own subtree is refused *)
 Theorem C09_move_guard : forall d r dest d',
   dom_transfer_within d r dest = Ok d' ->
   r <> d_root d /\ anc_loop (S (dom_size d)) d dest r = Ok false.
